@@ -35,6 +35,29 @@ impl<C: PixelColor> DrawTarget for Target<C> {
         }
         Ok(())
     }
+    /// same observable behaviour as the default implementation (zip of the area's points with
+    /// the colours, clipped to the target), but with one counter instead of a second point iterator
+    fn fill_contiguous<I: IntoIterator<Item = C>>(&mut self, area: &Rectangle, colors: I) -> Result<(), Infallible> {
+        let n = area.size.width as u64 * area.size.height as u64;
+        let inside = area.contains(self.probe);
+        let k = if inside {
+            (self.probe.y - area.top_left.y) as u64 * area.size.width as u64 + (self.probe.x - area.top_left.x) as u64
+        } else {
+            u64::MAX
+        };
+        let mut i = 0u64;
+        for c in colors {
+            if i >= n {
+                break;
+            }
+            if i == k {
+                self.val = Some(c);
+                self.writes += 1;
+            }
+            i += 1;
+        }
+        Ok(())
+    }
     fn fill_solid(&mut self, area: &Rectangle, color: C) -> Result<(), Infallible> {
         if area.contains(self.probe) {
             self.val = Some(color);
